@@ -2,6 +2,15 @@
 # Writes /verif/MANIFEST.json from the table below (kept here so the manifest stays valid and consistent).
 import json, os
 CLAIMED = {
+ "C02": dict(technique="Coq proof over a model of the set-operation fold and clause assembly (Model/Clause.v): the fold over every chain of operands and operators equals the left-nested specification; tied by differential execution of the fold model on the operand/operator chains of generated queries, plus an expected-tree query generator",
+             text="Theorems in Props/C02.v (union fold = left-nested spec for every chain; same-operator flattening only on the left spine; parenthesised operands opaque). Generator builds SELECT / FROM / JOIN / WHERE / GROUP BY / HAVING / ORDER BY / LIMIT / OFFSET / FETCH / CTE / set-operation queries together with the tree the property requires and compares with parse under all entry points",
+             design="6/C02", note="Partial: clause assembly inside one SELECT is decided by the generator oracle against hand-stated expected shapes; the theorem covers the set-operation fold and the tail clauses' attachment"),
+ "C19": dict(technique="Coq proof over a model of the INSERT pairing (Model/Ddl.v: zip of the column list with every row, rows in order, round trip back to rows) with a refutation theorem for unequal lengths; tied by differential execution of the model on generated INSERT statements, plus an expected-tree DDL/DML generator",
+             text="Theorems C19_insert_pairing, C19_row_recoverable, C19_rows_in_order, C19_truncation_refuted (Props/C19.v). Generator: CREATE TABLE (35 types x 13 options x table constraints), INSERT / REPLACE (with / without column list, literal and general rows), UPDATE, DELETE, DROP, CREATE VIEW / INDEX with the tree the property requires",
+             design="6/C19", note="Partial: CREATE TABLE / UPDATE / DELETE shapes are decided by the generator oracle; the theorems cover the INSERT ... VALUES pairing. Rows whose length differs from the column list are a listed finding (zip truncates)"),
+ "C20": dict(technique="Coq proof over a model of the window frame calls (_to_bound_call / _to_between_call) and the formatter's frame rendering: recorded frame = specification, rendered frame parses back; tied by differential execution on all bound pairs and generated OVER clauses",
+             text="Theorems in Props/C20.v (recorded = spec for every bound pair; rendered round trip for every well-formed frame). Oracle: every (mode, bound, bound) combination with integer / expression limits, PARTITION BY / ORDER BY lists, named windows and WITHIN GROUP, parsed and formatted",
+             design="6/C20", note="Partial: the listed findings (expression bound following, min>max frames) are pinned by witness; the expression inside a bound is opaque to the model"),
  "C08": dict(technique="Coq proof over a model of scrub/simple_op/normal_op (all raw trees), tied by differential execution of the model (vm_compute) on captured raw parse results",
              text="Theorems C08_plain_json / C08_simplified_simple / C08_simplified_normal (Props/C08.v) hold for every raw parse tree, callback mode, rename map and null value; "
                   "the model is re-validated against utils.scrub + the substitution loop on every run on thousands of captured raw results, and the raw results are checked to lie in the modelled universe",
